@@ -39,7 +39,6 @@ const ID_FORK: &str = "restart-equal-length-fork";
 const ID_ORPHAN: &str = "restart-replays-block-without-parent";
 const ID_WIPE: &str = "torn-file-discards-later-blocks";
 const ID_BATCH: &str = "undecodable-file-aborts-only-its-batch";
-const ID_FLUSH: &str = "write-value-returns-before-the-data-is-written";
 
 struct Clock(AtomicU64);
 impl KeepTime for Clock {
@@ -98,6 +97,12 @@ async fn restart_real(params: &Params, key: u8, disk: Arc<Mutex<Disk>>) -> Resul
     restart_with(params, key, disk, false).await
 }
 
+thread_local! {
+    /// the node under test keeps its block directory (ConsensusThread::delete_old_blocks = false): on_init
+    /// deletes nothing, so files of no stored block may stay; set per history
+    static KEEP_DIR: std::cell::Cell<bool> = std::cell::Cell::new(false);
+}
+
 /// `real_fs`: storage and network sit on the real RustIOHandler (block directory ./data/blocks/ of the
 /// current working directory) instead of the in-memory MemIo
 async fn restart_with(params: &Params, key: u8, disk: Arc<Mutex<Disk>>, real_fs: bool) -> Result<Node, String> {
@@ -150,7 +155,7 @@ async fn restart_with(params: &Params, key: u8, disk: Arc<Mutex<Disk>>, real_fs:
         stat_sender: s_stat,
         config_lock,
         produce_blocks_by_timer: false,
-        delete_old_blocks: true,
+        delete_old_blocks: !KEEP_DIR.with(|c| c.get()),
     };
     let r = futures_catch(AssertUnwindSafe(th.on_init())).await;
     drop(th);
@@ -277,6 +282,8 @@ struct Hist {
     journal: Vec<DiskOp>,
     issued: u128,
     notes: Vec<String>,
+    /// delete_old_blocks = false for every restart of this history
+    keep_dir: bool,
 }
 
 fn supply_of(node: &Node) -> u128 {
@@ -377,7 +384,7 @@ fn dir_vs_blocks(node: &Node) -> Option<String> {
         .filter(|b| b.block_type != BlockType::Header)
         .map(|b| b.get_file_name())
         .collect();
-    if on_disk == stored {
+    if on_disk == stored || (KEEP_DIR.with(|c| c.get()) && stored.is_subset(&on_disk)) {
         return None;
     }
     let ids = |names: Vec<&String>| -> Vec<u64> {
@@ -487,6 +494,8 @@ enum Action {
     /// with the first `permille`/1000 of its bytes (journaled as a write of exactly those bytes), then the
     /// node is restarted through the real on_init and the history goes on from what it came up with
     CrashRestart { permille: u64 },
+    /// the block whose file the last crash-restart tore is delivered again (by a peer)
+    Redeliver,
 }
 
 struct GenOpts {
@@ -497,6 +506,8 @@ struct GenOpts {
     restart_pct: u64,
     /// scripted history (None = random)
     script: Option<Vec<Action>>,
+    /// delete_old_blocks = false
+    keep_dir: bool,
     /// random histories may contain crash-restarts (never in histories compared with the Coq model:
     /// its journal language has no partial write)
     crash_restarts: bool,
@@ -549,9 +560,12 @@ async fn builder_at(h: &Hist, idx: usize) -> Option<Node> {
 async fn gen_history(rng: &mut Rng, o: &GenOpts) -> Hist {
     let params = chainsim::params(o.gp, false);
     let mut node = Node::new(&params, 1);
-    let mut h = Hist { params: params.clone(), blocks: vec![], marks: vec![], journal: vec![], issued: 0, notes: vec![] };
+    let mut h = Hist { params: params.clone(), blocks: vec![], marks: vec![], journal: vec![], issued: 0, notes: vec![], keep_dir: false };
     let issuance: Vec<_> = (0..4).map(|k| (node.pk, 1_000_000 + 1000 * k as u64)).collect();
     h.issued = issuance.iter().map(|(_, a)| *a as u128).sum();
+    h.keep_dir = o.keep_dir;
+    KEEP_DIR.with(|c| c.set(o.keep_dir));
+    let mut last_torn: Option<usize> = None;
     let g = make_genesis(&node, 1_000_000, &issuance).await.expect("genesis");
     h.blocks.push(HBlock { block: g, parent: None, eff_invalid: false });
     deliver(&mut h, &mut node, 0).await;
@@ -579,6 +593,7 @@ async fn gen_history(rng: &mut Rng, o: &GenOpts) -> Hist {
                 _ => None,
             });
             if let Some((name, bytes)) = last {
+                last_torn = h.blocks.iter().position(|b| b.block.hash == name_hash(&name));
                 let m = ((bytes.len() as u64 * permille) / 1000) as usize;
                 let io = MemIo::new(node.disk.clone());
                 let _ = io.write_value(&name, &bytes[..m.min(bytes.len().saturating_sub(1))]).await;
@@ -648,6 +663,11 @@ async fn gen_history(rng: &mut Rng, o: &GenOpts) -> Hist {
                         h.notes.push(format!("clean restart inside the history panicked: {}", m));
                         break;
                     }
+                }
+            }
+            Action::Redeliver => {
+                if let Some(i) = last_torn {
+                    deliver(&mut h, &mut node, i).await;
                 }
             }
             Action::Fork { depth, blocks, invalid } => {
@@ -744,6 +764,7 @@ async fn gen_history(rng: &mut Rng, o: &GenOpts) -> Hist {
         }
     }
     h.journal = node.disk.lock().unwrap().journal.clone();
+    KEEP_DIR.with(|c| c.set(false));
     h
 }
 
@@ -810,6 +831,15 @@ fn scripts() -> Vec<(&'static str, u64, bool, Vec<Action>)> {
             20,
             false,
             vec![ext(300), ext(300), ext(300), Action::CrashRestart { permille: 600 }, ext(300), ext(300), Action::Restart, ext(300)],
+        ),
+        // a node that keeps its block directory (delete_old_blocks = false): the tip file is torn by a crash,
+        // the restarted node gets the same block again from a peer (the file is written again), goes on and
+        // is restarted cleanly: it must come up on the tip it had
+        (
+            "kept-directory-torn-file-redelivered",
+            20,
+            false,
+            vec![ext(300), ext(300), ext(300), Action::CrashRestart { permille: 600 }, Action::Redeliver, ext(300), ext(300), Action::Restart, ext(300)],
         ),
         // genesis period 3: restart far beyond the purge horizon, crash while the restart rewrites files
         (
@@ -882,9 +912,11 @@ struct HistShared {
     params: Params,
     journal: Vec<DiskOp>,
     tree_blocks: Vec<HBlock>,
+    keep_dir: bool,
 }
 
 async fn eval_crash_point(h: &HistShared, cp: &CrashPoint) -> Outcome {
+    KEEP_DIR.with(|c| c.set(h.keep_dir));
     saito_core::core::consensus::blockchain::VERIF_WIND_STEPS.with(|c| c.set((0, u64::MAX)));
     let d = disk_after(&h.journal, cp.k, cp.torn.map(|t| t.1));
     let mut disk_blocks: Vec<(SaitoHash, u64)> = vec![];
@@ -1563,7 +1595,7 @@ async fn batch_gap_history(n: usize, torn_at: usize) -> (Hist, CrashPoint) {
     let mut params = chainsim::params(gp, false);
     params.prune_after_blocks = 2 * gp;
     let mut node = Node::new(&params, 1);
-    let mut h = Hist { params: params.clone(), blocks: vec![], marks: vec![], journal: vec![], issued: 0, notes: vec![] };
+    let mut h = Hist { params: params.clone(), blocks: vec![], marks: vec![], journal: vec![], issued: 0, notes: vec![], keep_dir: false };
     let issuance: Vec<_> = (0..4).map(|k| (node.pk, 1_000_000 + 1000 * k as u64)).collect();
     h.issued = issuance.iter().map(|(_, a)| *a as u128).sum();
     let g = make_genesis(&node, 1_000_000, &issuance).await.expect("genesis");
@@ -1644,9 +1676,10 @@ fn tree_diff(real: &BTreeMap<String, Vec<u8>>, mem: &BTreeMap<String, Vec<u8>>) 
     Some(format!("only on the file system {:?}; only in memory {:?}; different content {:?}", only_real, only_mem, differ))
 }
 
-/// compares the real tree with `expect`; RustIOHandler::write_value returns without flushing the tokio
-/// file, so the bytes can arrive after the call has returned (listed finding): the comparison is
-/// repeated for up to half a second.  Returns (difference that remains, number of polls that saw one).
+/// compares the real tree with `expect`.  Before fix 8aca2b0 RustIOHandler::write_value returned without
+/// flushing the tokio file and the bytes arrived after the call; to tell that regression (late but
+/// complete) from a wrong file the comparison is repeated for up to half a second.  Returns (difference
+/// that remains, number of polls that saw one); any poll that saw a difference is reported as a failure.
 fn settle_tree(expect: &BTreeMap<String, Vec<u8>>) -> (Option<String>, usize) {
     let mut polls = 0;
     loop {
@@ -1694,9 +1727,12 @@ async fn io_ops_case(rng: &mut Rng, n_ops: usize) -> (String, Vec<String>) {
     }
     for step in 0..n_ops {
         let name = rng.pick(&names).clone();
-        let what = match rng.below(10) {
+        // steps 0 / 1: a file larger than tokio's 2 MiB file buffer is written and read back
+        let forced = if step == 0 { Some(0) } else if step == 1 { Some(6) } else { None };
+        let name = if forced.is_some() { names[0].clone() } else { name };
+        let what = match forced.unwrap_or_else(|| rng.below(10)) {
             0..=3 => {
-                let len = *rng.pick(&[0u64, 1, 388, 389, 390, 700, 2000, 5000]) + rng.below(3);
+                let len = if step == 0 { 3 * 1024 * 1024 + 17 } else { *rng.pick(&[0u64, 1, 388, 389, 390, 700, 2000, 5000]) + rng.below(3) };
                 let bytes: Vec<u8> = (0..len).map(|i| (rng.next() as u8) ^ (i as u8)).collect();
                 let a = real.write_value(&name, &bytes).await;
                 let b = mem.write_value(&name, &bytes).await;
@@ -1919,7 +1955,7 @@ fn main() {
         let (h, cp) = rt.block_on(batch_gap_history(parts[0], parts[1]));
         eprintln!("built {} blocks in {:?}; notes {:?}", h.blocks.len(), t0.elapsed(), h.notes);
         let ctx = Ctx { h: &h, by_hash: h.blocks.iter().enumerate().map(|(i, b)| (b.block.hash, i)).collect() };
-        let shared = Arc::new(HistShared { params: h.params.clone(), journal: h.journal.clone(), tree_blocks: h.blocks.clone() });
+        let shared = Arc::new(HistShared { params: h.params.clone(), journal: h.journal.clone(), tree_blocks: h.blocks.clone(), keep_dir: h.keep_dir });
         let out = run_crash_point(&shared, &cp, Duration::from_secs(600));
         let v = judge(&ctx, &cp, &out);
         if let Ok(o) = &out {
@@ -1995,6 +2031,7 @@ fn main() {
             restart_pct: 6,
             script: script.as_ref().map(|x| x.3.clone()),
             crash_restarts: !model,
+            keep_dir: script.as_ref().map(|x| x.0.starts_with("kept-directory")).unwrap_or(false),
         };
         let h = rt.block_on(gen_history(&mut rng, &o));
         if let Some(sc) = &script {
@@ -2042,6 +2079,7 @@ fn main() {
             params: h.params.clone(),
             journal: h.journal.clone(),
             tree_blocks: h.blocks.clone(),
+            keep_dir: h.keep_dir,
         });
         let has_fork = h.blocks.iter().enumerate().any(|(i, b)| {
             h.blocks.iter().skip(i + 1).any(|c| c.parent == b.parent && b.parent.is_some())
@@ -2222,7 +2260,7 @@ fn main() {
                 h.journal.push(DiskOp::Write(name, bytes));
             }
             let ctx = Ctx { h: &h, by_hash: h.blocks.iter().enumerate().map(|(i, b)| (b.block.hash, i)).collect() };
-            let shared = Arc::new(HistShared { params: h.params.clone(), journal: h.journal.clone(), tree_blocks: h.blocks.clone() });
+            let shared = Arc::new(HistShared { params: h.params.clone(), journal: h.journal.clone(), tree_blocks: h.blocks.clone(), keep_dir: h.keep_dir });
             let mut pts = vec![CrashPoint { k: h.journal.len(), torn: Some(("inside-header", 100)) }];
             if torn_at == 2 {
                 pts.push(CrashPoint { k: n_writes, torn: None });
@@ -2291,7 +2329,7 @@ fn main() {
             if !thorough && !["restart-after-purge", "three-siblings-above-purged-parent", "linear-with-restart", "crash-restart-then-growth"].contains(&name) {
                 continue;
             }
-            let o = GenOpts { gp, steps: actions.len(), fork_pct: 0, invalid_pct: 0, restart_pct: 0, script: Some(actions), crash_restarts: false };
+            let o = GenOpts { gp, steps: actions.len(), fork_pct: 0, invalid_pct: 0, restart_pct: 0, script: Some(actions), crash_restarts: false, keep_dir: false };
             let h = rt.block_on(gen_history(&mut rng, &o));
             for (d, f) in rt.block_on(io_node_cases(&h, name)) {
                 results.push(("history-on-real-handler", d, f));
@@ -2302,9 +2340,9 @@ fn main() {
         for (kind, d, f) in results {
             for w in &f {
                 if let Some(r) = w.strip_prefix(RACED) {
-                    if io_raced < 12 {
-                        summary.known_hit(ID_FLUSH, case_no, r);
-                    }
+                    // fixed by 8aca2b0 (write_value awaits flush): a file that is still short right after the
+                    // call has returned is a violation again
+                    summary.oracle_failure(case_no, &format!("RustIOHandler::write_value returned before the data was in the file: {}", r), &d);
                     io_raced += 1;
                 } else {
                     summary.oracle_failure(case_no, &format!("RustIOHandler vs MemIo: {}", w), &d);
